@@ -165,7 +165,7 @@ func (fc *FnCtx) builtinCopy(s *State, x *ssa.Call, dst, src Val) Val {
 		mkImp(in, mkEq(mkSelect(newDst, j), mkSelect(oldSrc, mkAdd(src.Off, mkSub(j, dst.Off))))),
 		mkImp(mkNot(in), mkEq(mkSelect(newDst, j), mkSelect(oldDst, j))))
 	s.assume(mkForall("?j", body))
-	registerFrame(newDst, oldDst, dst.Off, mkAdd(dst.Off, nc))
+	fc.registerFrame(newDst, oldDst, dst.Off, mkAdd(dst.Off, nc))
 	// value-level consequence (lemma V_copy: equal words give equal values), used by callers
 	s.assume(mkEq(mkV(newDst, dst.Off, mkAdd(dst.Off, nc)), mkV(oldSrc, src.Off, mkAdd(src.Off, nc))))
 	fc.usedIntrinsics["builtin copy (memmove; with the value consequence V(dst[:n]) = V(src[:n]))"] = true
@@ -650,7 +650,7 @@ func (fc *FnCtx) havocFrame(s *State, fr *Frame, old map[string]*Term) {
 		j := mkConst("?j", SInt)
 		body := mkImp(mkNot(mkAnd(mkLe(r.Lo, j), mkLt(j, r.Hi))), mkEq(mkSelect(nm, j), mkSelect(before, j)))
 		s.assume(mkForall("?j", body))
-		registerFrame(nm, before, r.Lo, r.Hi)
+		fc.registerFrame(nm, before, r.Lo, r.Hi)
 	}
 }
 
